@@ -242,6 +242,10 @@ pub struct NonceProbe {
     /// (session, direction, nonce) -> (datagram index, bytes)
     seen: HashMap<(usize, bool, u64), (usize, Vec<u8>)>,
     sealed: u64,
+    /// (session, direction, sequence, datagram index, sealed body, plain body) of every sealed datagram
+    bodies: Vec<(usize, bool, u64, usize, Vec<u8>, Vec<u8>)>,
+    /// challenge-token sequence -> (datagram index, sealed challenge token)
+    challenge_tokens: HashMap<u64, (usize, Vec<u8>)>,
 }
 
 impl NetProbe for NonceProbe {
@@ -290,12 +294,58 @@ impl NetProbe for NonceProbe {
         } else {
             self.seen.insert((i, dir, seq), (d, g.bytes.clone()));
         }
+        // the nonce itself, not only the number on the wire: two datagrams sealed under one key with one nonce
+        // share their key stream, i.e. sealed(a) xor sealed(b) == plain(a) xor plain(b) from the first body byte
+        // on (by chance with probability 2^-64 for the shortest bodies compared here)
+        let key = if dir { sim.tokens[i].client_to_server_key } else { sim.tokens[i].server_to_client_key };
+        let start = 1 + (g.bytes[0] >> 4) as usize;
+        let mut plain = g.bytes.clone();
+        if start + 16 <= plain.len() && crate::nc::open(&mut plain, crate::nc::PROTOCOL, &key).is_some() {
+            let end = g.bytes.len() - 16;
+            let (cb, pb) = (g.bytes[start..end].to_vec(), plain[start..end].to_vec());
+            if pb.len() >= 8 {
+                for (i0, dir0, seq0, d0, c0, p0) in &self.bodies {
+                    if *i0 != i || *dir0 != dir || *seq0 == seq {
+                        continue;
+                    }
+                    let m = cb.len().min(c0.len());
+                    if (0..m).all(|k| cb[k] ^ c0[k] == pb[k] ^ p0[k]) {
+                        let t0 = sim.dgs[*d0].opened.map(|o| o.0).unwrap_or(0);
+                        return Err(Violation::new(
+                            format!("C17/key-stream-reused/{}-and-{}", names[t0 as usize], names[ty as usize]),
+                            format!(
+                                "session of client {}: datagram #{} ({}, sequence {}) and datagram #{} ({}, sequence {}) were sealed under the same {} key with the same key stream over their first {} body bytes: the two sequence numbers map to one nonce",
+                                i, d0, names[t0 as usize], seq0, d, names[ty as usize], seq, if dir { "client-to-server" } else { "server-to-client" }, m
+                            ),
+                        ));
+                    }
+                }
+                self.bodies.push((i, dir, seq, d, cb, pb.clone()));
+            }
+            // the challenge token inside a challenge is sealed under the server's challenge key with its own counter
+            if !dir && ty == 2 && pb.len() >= 308 {
+                let ts = u64::from_le_bytes(pb[..8].try_into().unwrap());
+                let tok = pb[8..308].to_vec();
+                match self.challenge_tokens.get(&ts) {
+                    Some((d0, old)) if *old != tok => {
+                        return Err(Violation::new(
+                            "C17/nonce-reused/challenge-token",
+                            format!("challenges #{} and #{} carry different challenge tokens sealed under the challenge key with the same token sequence {}", d0, d, ts),
+                        ));
+                    }
+                    Some(_) => {}
+                    None => {
+                        self.challenge_tokens.insert(ts, (d, tok));
+                    }
+                }
+            }
+        }
         Ok(())
     }
 }
 
 fn nonce_probe() -> Box<dyn NetProbe> {
-    Box::new(NonceProbe { seen: HashMap::new(), sealed: 0 })
+    Box::new(NonceProbe { seen: HashMap::new(), sealed: 0, bodies: vec![], challenge_tokens: HashMap::new() })
 }
 
 pub fn nonce_scenarios(tier: Tier) -> Vec<NetScenario> {
